@@ -213,6 +213,8 @@ mut("register_operator_overwrites", ["C10"], "RegisterOperator/post/",
     [("operator.go", "\tif _, exist := cc.OperatorMap[name]; exist {\n\t\treturn fmt.Errorf(\"operator already exist %s\", name)\n\t}\n", "\tif _, exist := cc.OperatorMap[name]; exist {\n\t\tcc.OperatorMap[name] = op\n\t\treturn fmt.Errorf(\"operator already exist %s\", name)\n\t}\n")], "a refused registration still replaces the registered operator")
 mut("parser_shares_config_for_plain_sources", ["C08"], "newParser/post/private-config",
     [("parser.go", "\treturn &parser{\n\t\tsource: source,\n\t\tconf:   CopyConfig(cc),\n\t}", "\tconf := cc\n\tif cc == nil || strings.Contains(source, \";;;;\") {\n\t\tconf = CopyConfig(cc)\n\t}\n\treturn &parser{\n\t\tsource: source,\n\t\tconf:   conf,\n\t}")], "sources without a directive are parsed with the caller's config")
+mut("formatter_literal_scan_reads_past_the_end", ["C14"], "IndentByParentheses/safety",
+    [("util.go", "\t\t\tfor i++; i < len(A); i++ {\n\t\t\t\tsb.WriteRune(A[i])\n\t\t\t\tif A[i] == '\"' {", "\t\t\tfor i++; i <= len(A); i++ {\n\t\t\t\tsb.WriteRune(A[i])\n\t\t\t\tif A[i] == '\"' {")], "an unclosed literal makes the formatter read one rune past the end")
 # ---- probes of mechanisms that only the bounded tier covers
 mut("reduce_nesting_merges_any_bool_operator", ["C02"], "bnd/",
     [("compiler.go", "\t\tif isAndOpNode(cn) == rootOpType {\n\t\t\tchildren = append(children, child.children...)", "\t\tif isAndOpNode(cn) == rootOpType || len(child.children) == 2 {\n\t\t\tchildren = append(children, child.children...)")], "a two-operand or inside an and (or vice versa) is flattened into its parent")
